@@ -7,3 +7,4 @@ import Verif.Properties.C02Counterexamples
 #print axioms C02.referenced_sound
 #print axioms C02.Counterexamples.complete_needs_canonical_indices
 #print axioms C02.Counterexamples.dArr_nodupKeys
+#print axioms C02.nonschema_refs_untouched
